@@ -3,8 +3,9 @@
 (a) design check of Recompose.tla: the registry as implemented (keyed by short name) violates HistoryFree (prediction),
     a registry keyed by pkgpath/name does not,
 (b) TLC (RecomposeGen) emits every presentation history up to the bound with the model's prediction; the Go harness replays
-    each on ONE alt.Recomposer and, in a fresh subprocess per history, on alt.DefaultRecomposer through alt.Recompose,
-    oj.Unmarshal and sen.Unmarshal; reference results come from a fresh recomposer per call,
+    each, in a fresh subprocess per history, on ONE alt.Recomposer and on alt.DefaultRecomposer through alt.Recompose,
+    oj.Unmarshal and sen.Unmarshal; reference results come from a fresh recomposer per call and from a fresh PROCESS in
+    which the target is the only type ever used (solo),
 (c) TLC (TraceRecompose) judges every history (memo contract: result = fresh result; Inverse: fresh result ~ original)
     and every round trip of the C15 shapes (Inverse).
 """
@@ -14,7 +15,7 @@ import os
 import verif
 from verif import Infra, log
 
-TRACE_CFG = 'SPECIFICATION TraceSpec\nCONSTANTS MaxBad = 60000 KeyedBy = "full" MaxHist = 0\nCHECK_DEADLOCK FALSE\nPOSTCONDITION Post\n'
+TRACE_CFG = 'SPECIFICATION TraceSpec\nCONSTANTS MaxBad = 60000 KeyedBy = "full" MaxHist = 0 GraphLen = 0 IndexMemo = "none"\nCHECK_DEADLOCK FALSE\nPOSTCONDITION Post\n'
 MODES = ["own", "alt.Recompose", "oj.Unmarshal", "sen.Unmarshal"]
 # kinds of the C15 menu that can be recomposed at all (exported fields, no custom encoders, no time: see DESIGN-notes/C16.md)
 RT_KINDS = {"bool", "int", "uint8", "float", "string", "*int", "*S", "[]int", "[]uint8", "[]S", "[]*S", "[2]int", "map[string]int",
@@ -29,6 +30,8 @@ PRE = {"m": "map[string]", "s": "[]", "p": "*", "a": "[2]"}
 def pred_str(p):
     if not p:
         return "none"
+    if p[0] == "index":
+        return "truncated-index-of-%s" % p[1]
     return "%s-with-index-of-%s" % (p[0], p[1])
 
 
@@ -39,27 +42,41 @@ def judge(ctx, cases):
     hist = [c for c in cases if "h" in c]
     rts = [c for c in cases if "h" not in c]
     trace = os.path.join(ctx.scratch, "rc_trace_%d.ndjson" % ctx._c16)
-    index = []
+    hl, rl, hidx, ridx = [], [], [], []
+    if hist:
+        hp = os.path.join(ctx.scratch, "rc_hist_%d.ndjson" % ctx._c16)
+        verif.write_ndjson(hp, hist)
+        with open(hp, "rb") as fi:
+            p = ctx.run([eb, "hist"], stdin=fi, timeout=1500)
+        hl = [l for l in p.stdout.split(b"\n") if l.strip()]
+        hidx = hist
+        if len(hl) != len(hist):
+            raise Infra("encode hist: %d events for %d histories" % (len(hl), len(hist)))
+    if rts:
+        rp = os.path.join(ctx.scratch, "rc_rt_%d.ndjson" % ctx._c16)
+        cx = os.path.join(ctx.scratch, "rc_rtcases_%d.ndjson" % ctx._c16)
+        verif.write_ndjson(rp, [{"f": c.get("f", []), "top": c.get("top", ""), "v": c.get("v", "")} for c in rts])
+        with open(rp, "rb") as fi:
+            p = ctx.run([eb, "rt", "-cases", cx], stdin=fi, timeout=1500)
+        rl = [l for l in p.stdout.split(b"\n") if l.strip()]
+        ridx = verif.read_ndjson(cx)
+        if len(rl) != len(ridx):
+            raise Infra("encode rt: %d events for %d cases" % (len(rl), len(ridx)))
+    # the history events are the heavy ones for TLC: spread them evenly over the trace (and so over the validation chunks)
+    index, lines = [], []
+    stride = max(1, (len(hl) + len(rl)) // max(1, len(hl)))
+    hi = ri = 0
+    while hi < len(hl) or ri < len(rl):
+        if hi < len(hl) and (len(lines) % stride == 0 or ri >= len(rl)):
+            lines.append(hl[hi]); index.append(hidx[hi]); hi += 1
+        else:
+            lines.append(rl[ri]); index.append(ridx[ri]); ri += 1
     with open(trace, "wb") as fo:
-        if hist:
-            hp = os.path.join(ctx.scratch, "rc_hist_%d.ndjson" % ctx._c16)
-            verif.write_ndjson(hp, hist)
-            with open(hp, "rb") as fi:
-                p = ctx.run([eb, "hist"], stdin=fi, timeout=1500)
-            fo.write(p.stdout)
-            index += hist
-        if rts:
-            rp = os.path.join(ctx.scratch, "rc_rt_%d.ndjson" % ctx._c16)
-            cx = os.path.join(ctx.scratch, "rc_rtcases_%d.ndjson" % ctx._c16)
-            verif.write_ndjson(rp, [{"f": c.get("f", []), "top": c.get("top", ""), "v": c.get("v", "")} for c in rts])
-            with open(rp, "rb") as fi:
-                p = ctx.run([eb, "rt", "-cases", cx], stdin=fi, timeout=1500)
-            fo.write(p.stdout)
-            index += verif.read_ndjson(cx)
+        fo.write(b"\n".join(lines) + b"\n")
     ctx.cov["calls_skipped_after_confirmed_hang"] = ctx.cov.get("calls_skipped_after_confirmed_hang", 0) + sum(
         1 for l in open(trace, "rb") if b'"skip":true' in l)
     res = ctx.validate("TraceRecompose", trace, cfg=TRACE_CFG, chunk=4000, heap="3g", timeout=1500)
-    ctx.cov["evaluations"] += sum(2 * len(c["h"]) for c in hist) + (res["n"] - len(hist) if rts else 0)
+    ctx.cov["evaluations"] += sum(2 * len(c["h"]) for c in hist) + len({(c["mode"], t) for c in hist for t in c["h"]}) + (res["n"] - len(hist) if rts else 0)
     recs = []
     for b in res["bad"]:
         case = index[b["i"] - 1]
@@ -115,6 +132,9 @@ def classify_rt(case, m):
 def main(ctx):
     ctx.design("Recompose", "Recompose_impl.cfg", workers=2, expect_violation="HistoryFree", timeout=600)
     ctx.design("Recompose", "Recompose_full.cfg", workers=2, coverage=not ctx.quick, timeout=600)
+    # prediction for type graphs: an index table keyed by type that is also filled from nested walks (where the cut of an
+    # embedding cycle depends on the context) is rejected by HistoryFree (<<GA, GB>>)
+    ctx.design("Recompose", "Recompose_memo.cfg", workers=2, expect_violation="HistoryFreeStruct", timeout=600)
     r = ctx.tlc("RecomposeGen", "RecomposeGen_quick.cfg" if ctx.quick else "RecomposeGen_thorough.cfg", workers=1, timeout=900)
     if r.error or r.violated:
         raise Infra("history generation failed:\n" + r.out[-2000:])
@@ -161,13 +181,17 @@ def main(ctx):
     ctx.cov["distinct_nontrivial"] = len(hs)
     ctx.cov["round_trip_shapes"] = len(cases) - 4 * len(hs)
     ctx.cov["round_trip_routes"] = NAPI
-    ctx.cov["rule"] = ("every presentation history of length <= %d over the 8-type family (same short name in two packages, two "
-                       "anonymous structs, []T, *otherpkg.T, *T, interface field) replayed on one alt.Recomposer and, one fresh "
-                       "process per history, on alt.DefaultRecomposer via alt.Recompose / oj.Unmarshal / sen.Unmarshal, each call "
-                       "compared with a fresh recomposer and with the original; plus Decompose->Recompose, Marshal->Unmarshal and "
+    ctx.cov["rule"] = ("every presentation history of length <= %d over the 8-type name family (same short name in two packages, two "
+                       "anonymous structs, []T, *otherpkg.T, *T, interface field) and every history of length <= %d (inside a group "
+                       "of related types <= %d) over the 16-type graph family (mutual and three-way embedded pointer cycles, "
+                       "mutually recursive member types, embedded parts that are targets too, same-named embedded type, "
+                       "anonymous types holding others) replayed, one fresh process per history, on one alt.Recomposer and "
+                       "on alt.DefaultRecomposer via alt.Recompose / oj.Unmarshal / sen.Unmarshal, each call "
+                       "compared with a fresh recomposer, with a fresh process in which it is the only target and with the original; plus Decompose->Recompose, Marshal->Unmarshal and "
                        "sen round trips of the recomposable shapes TLC enumerates (EncodeGen_rt) under the three key naming modes, "
                        "from a value and from a pointer (addressable), repeated 6 times for shapes with maps (random map order), "
-                       "judged for deep equality and for storage shared between positions. distinct_nontrivial = histories." % (3 if ctx.quick else 4))
+                       "judged for deep equality and for storage shared between positions. distinct_nontrivial = histories."
+                       % ((3, 2, 3) if ctx.quick else (4, 3, 4)))
     ctx.cov["exhaustive"] = False
     ctx.assumptions += ["deep equality is judged by TLC on the typed projection of reflect values (nil and empty slices/maps identified)",
                         "interface-typed fields: the held types are registered and a create key is used; the A.W history target is "
